@@ -459,16 +459,34 @@ impl InstructionGenerator {
                     element: function_name,
                     ..
                 },
+            params,
             body,
-            ..
+            is_static,
         } = function_implementation;
 
         let qualifier = function_name
             .qualifier()
             .expect("Expected qualified function name");
-        self.mark_current_subprogram(ScopeName::Function(function_name), pos);
+        // a parameter that carries the function's own name is the result variable
+        let result_is_parameter = params
+            .iter()
+            .any(|p| rusty_parser::AsBareName::as_bare_name(&p.element) == rusty_parser::AsBareName::as_bare_name(&function_name));
+        self.mark_current_subprogram(ScopeName::Function(function_name.clone()), pos);
         // set default value
         self.push(Instruction::AllocateBuiltIn(qualifier), pos);
+        if is_static && !result_is_parameter {
+            // the variables of a STATIC function keep their values from call to call,
+            // but the result of the previous call is not one of them: every call
+            // starts with the result at zero / the empty string
+            self.push(
+                Instruction::VarPathName(RootPath {
+                    name: function_name,
+                    shared: false,
+                }),
+                pos,
+            );
+            self.push(Instruction::CopyAToVarPath, pos);
+        }
         self.subprogram_body(body, pos);
     }
 
